@@ -526,6 +526,22 @@ func genKeysFam(t *rapid.T, fams []famWeight, sc sizeCap) ([]string, string) {
 	default:
 		panic("unknown family " + name)
 	}
+	// Bitmap and rank-index code works in 64-bit words: one case in six is cut
+	// to a key count at a word boundary (or one off).
+	if len(keys) > 63 && pickU(t, "boundaryN", 6) == 0 {
+		var cands []int
+		for _, b := range []int{64, 128, 192, 256, 512, 1024, 2048, 4096, 8192} {
+			for d := -1; d <= 1; d++ {
+				if b+d <= len(keys) {
+					cands = append(cands, b+d)
+				}
+			}
+		}
+		n := cands[pickU(t, "boundaryPick", len(cands))]
+		off := rapid.IntRange(0, len(keys)-n).Draw(t, "boundaryOff")
+		keys = keys[off : off+n]
+		name += "@word"
+	}
 	return keys, name
 }
 
